@@ -219,9 +219,14 @@ fn all2() -> Vec<R2> {
 }
 
 fn record(ctx: &mut Ctx, fam: &str, entry: &str, case: Value, size: usize, degenerate: bool, out: Outcome<Vec<Cell>>, w: usize) {
-    let log = probe_take();
+    let mut log = probe_take();
     ctx.eval(fam, mix(outcome_hash(&out), hash_bytes(format!("{:?}", log.faults).as_bytes())));
     ctx.transitions += log.ugets + log.usets + log.uslices;
+    // a call that was handed a buffer must deliver through it: returning a container instead leaves every slot
+    // of the caller's buffer unwritten while the caller goes on to treat it as initialised
+    if matches!(&out, Outcome::Panic(m) if m.contains("out-buffer form returned a container")) {
+        log.faults.push("the out-buffer form returned a container: no slot of the caller's buffer was written before it is exposed as initialised".into());
+    }
     if !log.faults.is_empty() {
         let all = log.faults.join("; ");
         // F14: the *_to bodies return early for window 0 without writing, and the buffer is exposed as initialised
@@ -393,7 +398,10 @@ fn check_layouts(fam: &str, word: &[u8], x: &[X], ctx: &mut Ctx) {
     for (lname, container, kind) in LAYOUTS {
         for &w in &ws {
             let judge = |ctx: &mut Ctx, entry: String, mp: Option<usize>, res: (Outcome<Vec<Cell>>, Vec<String>)| {
-                let (out, faults) = res;
+                let (out, mut faults) = res;
+                if matches!(&out, Outcome::Panic(m) if m.contains("out-buffer form returned a container")) {
+                    faults.push("the out-buffer form returned a container: no slot of the caller's buffer was written".into());
+                }
                 ctx.eval(fam, mix(outcome_hash(&out), hash_bytes(format!("{faults:?}").as_bytes())));
                 ctx.transitions += len as u64;
                 if faults.is_empty() {
@@ -495,7 +503,7 @@ fn main() {
         total.merge(par_items(&items, run.threads, |(_l, x), ctx| check_layouts("caller-layouts", &[], x, ctx)));
     }
     let meta = Meta {
-        rule: "history tree of every word over {null,0,1,2}; at each word every rolling entry point (null-aware, plain, two-series), vrank, vpartition, varg_partition, vquantile, Spearman vcorr and half_life run (a) on an instrumented input container recording every uget / uslice and (b) on real Vec / Array1 inputs (fast paths), always into an instrumented output container recording every uset, via the returned and the caller-buffer path; windows 0..=len+3, every min_periods, k in 0..=len+2, second series of length len-1 ..= len+3. The same on long structured series (40 / 270 elements, windows 0, 1, 2, 16, 17, 255..257, len-1..len+3, k around 16 and len). Oracle (monitor): no recorded fault - no index >= len, no slice outside 0<=start<=end<=len, no write outside the buffer, every slot written exactly once at assume_init. Transitions = instrumented accesses observed. Non-trivial = distinct words. Configuration families (DESIGN 5.15, 5.16): caller-layouts - every null-aware entry point, the two-series kernels, the user-function drivers and iterator writes into strided / reversed ndarray views and wrapped rings, with an audit of the whole backing storage (every slot of the view written, no cell outside it touched), windows 1, 2, len+1 and usize::MAX, 2^63; second series of length len-1 ..= len+3.".into(),
+        rule: "history tree of every word over {null,0,1,2}; at each word every rolling entry point (null-aware, plain, two-series), vrank, vpartition, varg_partition, vquantile, Spearman vcorr and half_life run (a) on an instrumented input container recording every uget / uslice and (b) on real Vec / Array1 inputs (fast paths), always into an instrumented output container recording every uset, via the returned and the caller-buffer path; windows 0..=len+3, every min_periods, k in 0..=len+2, second series of length len-1 ..= len+3. The same on long structured series (40 / 270 elements, windows 0, 1, 2, 16, 17, 255..257, len-1..len+3, k around 16 and len). Oracle (monitor): no recorded fault - no index >= len, no slice outside 0<=start<=end<=len, no write outside the buffer, every slot written exactly once at assume_init. Transitions = instrumented accesses observed. Non-trivial = distinct words. Configuration families (DESIGN 5.15, 5.16): caller-layouts - every null-aware entry point, the two-series kernels, the user-function drivers and iterator writes into strided / reversed ndarray views and wrapped rings, with an audit of the whole backing storage (every slot of the view written, no cell outside it touched), windows 1, 2, len+1 and usize::MAX, 2^63; second series of length len-1 ..= len+3. Round 8 (DESIGN 5.17): a call that was handed a buffer but returns a container instead (harness assertion) is a fault: no slot of the caller's buffer was written.".into(),
         bounds: json!({"alphabet": json_word(&fam.alpha), "L": fam.max_len, "window": "0..=len+3", "k": "0..=len+2", "second_series_len": ["len-1", "len", "len+1", "len+2", "len+3"], "inputs": ["ProbeVec", "Vec", "Array1"], "paths": ["Ret", "Buf"]}),
         assumptions: vec![
             "panics are not judged here unless a fault was recorded first (clean panics on degenerate parameters are allowed by the property; other panics belong to C05/C20)".into(),
